@@ -15,7 +15,8 @@ LEVEL = "exploration"
 RULE = (
     "case = (corpus message, sequence of one or two (name, value-kind) assignment attempts); "
     "names = all instance attribute names incl. private ones + properties + fresh names; every "
-    "attempt is made with the builtin setattr on a freshly parsed message; non-trivial = always "
+    "attempt is made with the builtin setattr on a message obtained directly, from the parser, a file "
+    "or socket reader, or through copy / deepcopy / pickle; non-trivial = always "
     "(each case makes at least one attempt); distinct = cases differ by construction"
 )
 FRESH = ["ZZ_new_public", "_zz_new_private", "payload", "identity", "ismsm", "DF002", "__class__x"]
@@ -55,6 +56,18 @@ def obtain(payload, source):
 
     if source == "direct":
         return RTCMMessage(payload=payload)
+    if source in ("copy", "deepcopy", "pickle", "pickle0"):
+        # the message as it arrives through the object-copy protocol (copy module, a
+        # multiprocessing queue, an on-disk cache): still a parsed message
+        import copy  # pylint: disable=import-outside-toplevel
+        import pickle  # pylint: disable=import-outside-toplevel
+
+        orig = RTCMMessage(payload=payload)
+        if source == "copy":
+            return copy.copy(orig)
+        if source == "deepcopy":
+            return copy.deepcopy(orig)
+        return pickle.loads(pickle.dumps(orig, protocol=0 if source == "pickle0" else pickle.HIGHEST_PROTOCOL))
     frame = pinned.frame(payload)
     if source == "parse":
         return RTCMReader.parse(frame)
@@ -181,8 +194,8 @@ def _work(item):
             k += 1
     # the same message obtained through the parser, a file reader and socket readers
     pubs = [n for n in names if not n.startswith("_")][:2]
-    for source in ("parse", "file", "socket", "socket-seg"):
-        for name in ["payload", "_payload"] + pubs:
+    for source in ("parse", "file", "socket", "socket-seg", "copy", "deepcopy", "pickle", "pickle0"):
+        for name in ["payload", "_payload", "ZZ_new_public"] + pubs:
             for kind in ("zero", "iadd"):
                 case = {"name": it["name"], "payload": it["payload"], "source": source,
                         "attempts": [[name, kind]]}
